@@ -71,6 +71,13 @@ def scenarios(draw):
         sc['dispose_after'] = None
         if model not in ('st', 'ch'):
             sc['dispose_ticks'] = None
+    if model in ('st', 'ch') and sc['limit'] < MAXN and sc['dispose_after'] is None and sc['dispose_ticks'] is None \
+            and draw(st.integers(0, 2)) == 0:
+        # a core-API requester that tops its credit up in steps (two or three request(n) calls in a row, no automatic
+        # refill): together with the initial request-n the credit covers the whole sequence
+        steps = draw(st.lists(st.integers(1, 6), min_size=2, max_size=3))
+        steps[-1] += max(0, sc['n'] + 1 - sc['limit'] - sum(steps))
+        sc['topup'] = steps
     return sc
 
 
@@ -285,6 +292,8 @@ def build_core(sc):
         spec['src'] = {'kind': 'gen' if not sc['bp'] else 'agen', 'els': els, 'end': 'flag' if sc.get('flag_end') else 'sep',
                        'err_at': sc['err_at']}
         spec['sub'] = {'n0': sc['limit'], 'refill': sc['limit'] if sc['limit'] < MAXN else 0, 'cancel_at': sc['dispose_after']}
+        if sc.get('topup'):
+            spec['sub']['refill'] = 0
     if model == 'ch':
         spec['rsrc'] = {'kind': 'gen' if not sc.get('rbp') else 'agen', 'els': [lens] * sc['m'],
                         'end': 'flag' if sc.get('flag_end') else 'sep', 'err_at': sc.get('rerr_at')}
@@ -320,6 +329,8 @@ def run_variant(sc, variant):
             if sc['dispose_ticks']:
                 pre.append(['tick', sc['dispose_ticks']])
             pre.append(['cancel', 0, 'resp'])
+        for k in sc.get('topup') or ():
+            pre.append(['req', 0, 'resp', k])
         prog['inter'] = [build_core(sc)]
         prog['ops'] = pre + ops_tail
         if sc['model'] == 'setup':
@@ -585,7 +596,8 @@ def prop(sc):
     info['nt'] = (n >= 3 and lim < n) or inside
     info['classes'] = ['model=' + sc['model'], 'limited_credit=%s' % (lim < n), 'error=%s' % (sc['err_at'] is not None),
                        'dispose=%s' % (sc['dispose_after'] is not None or sc.get('dispose_ticks') is not None),
-                       'dispose_immediately=%s' % (sc.get('dispose_ticks') == 0), 'backpressure_factory=%s' % sc['bp']]
+                       'dispose_immediately=%s' % (sc.get('dispose_ticks') == 0), 'backpressure_factory=%s' % sc['bp'],
+                       'credit_topped_up_in_steps=%s' % bool(sc.get('topup'))]
     return vs
 
 
